@@ -340,7 +340,7 @@ func (p *Pred) Eval(get func(string) (Val, bool)) bool {
 
 // Ex is a field expression.
 type Ex struct {
-	Op   string  `json:"op"` // SUM MIN MAX COUNT AVG WAVG | + - * / < <= = <> >= > AND OR | CONST | IF | LN LOG2 LOG10 | BOUNDEDTOP | PCT | REF | SHIFT
+	Op   string  `json:"op"` // SUM MIN MAX COUNT AVG WAVG | + - * / < <= = <> >= > AND OR | CONST | IF | LN LOG2 LOG10 | BOUNDEDTOP | PCT | PCTOPT | REF | SHIFT
 	F    string  `json:"f,omitempty"`
 	W    string  `json:"w,omitempty"`
 	Bnd  bool    `json:"bnd,omitempty"`
@@ -389,6 +389,8 @@ func (e *Ex) SQL() string {
 		return fmt.Sprintf("PERCENTILE(%s, %s, %s, %s, %d)", e.F, numSQL(e.Pct), numSQL(e.Lo), numSQL(e.Hi), e.Prec)
 	case "PCTREF":
 		return fmt.Sprintf("PERCENTILE(%s, %s)", e.F, numSQL(e.Pct))
+	case "PCTOPT":
+		return fmt.Sprintf("PERCENTILE(%s, %s)", e.Args[0].SQL(), numSQL(e.Pct))
 	case "REF":
 		return e.F
 	case "SHIFT":
